@@ -122,6 +122,7 @@ def sort_model(ctx):
 def c02(ctx):
     printer_control_f8(ctx)
     sort_model(ctx)
+    registry_model(ctx)    # what is public is decided by the registry at that moment: exactly the registered types
     for sl in tier(ctx, ["qcls", "wrap", "smoke", "dir"], ["cls", "wrap", "panic", "smoke", "dir"]):
         printer_slice(ctx, sl)
     ctx.harness(["maporder-drive", "-prop", "C02"])   # maps print in key order: order-isomorphic unsafe keys, same redacted text
@@ -170,6 +171,7 @@ def c06(ctx):
 
 
 def c11(ctx):
+    deep_nesting(ctx)
     printer_slice(ctx, "panic")
     printer_slice(ctx, "dir")
     writer_model(ctx)      # every SafeWriter call sequence incl. JoinTo with non-slice, nil and typed-nil operands: no panic
@@ -358,6 +360,7 @@ def writer_model(ctx):
 
 
 def c09(ctx):
+    builder_histories(ctx)
     writer_model(ctx)
     buffer_model(ctx)
     buffer_traces(ctx)
@@ -369,7 +372,13 @@ def c08(ctx):
     printer_slice(ctx, tier(ctx, "qcompose", "compose"), module="MCCompose", cfg="Compose.cfg")
 
 
+def deep_nesting(ctx):
+    """nesting depths up to 500 (chains of SafeFormatters printing through the printer, nested slices), every route"""
+    ctx.harness(["deep-drive", "-prop", ctx.prop])
+
+
 def c16(ctx):
+    deep_nesting(ctx)
     for sl in tier(ctx, ["qcls", "wrap", "smoke", "dir", "qbytes"], ["cls", "wrap", "panic", "smoke", "bytes", "dir", "qerrorf"]):
         printer_slice(ctx, sl, module="MCRoutes", cfg="Routes.cfg")
 
@@ -384,7 +393,13 @@ def buffermem_model(ctx):
             ctx.control("BufferMem with the seeded defect %s must violate an invariant" % d, (not st["ok"]) and "is violated" in st["text"])
 
 
+def builder_histories(ctx):
+    """every history of <= 5 (6) StringBuilder writes, Reset/Take and accessor calls: always like a new builder"""
+    ctx.harness(["builder-drive", "-prop", ctx.prop, "-len", str(tier(ctx, 5, 6))])
+
+
 def c13(ctx):
+    builder_histories(ctx)
     buffer_model(ctx)
     buffermem_model(ctx)
     buffer_traces(ctx)
